@@ -127,10 +127,15 @@ def gen_cases(family, tier):
             cases.append(c)
     elif family == "struct":
         nm = SIZES[tier]["c09matrix"]
-        for i in range(n):
+        directed = F.directed_struct_specs()
+        for i in range(n + len(directed)):
             r = core.rng("struct", i)
-            spec = F.fam_struct(r, i)
-            c = Case("s%d" % i, family, spec)
+            if i < len(directed):
+                spec = directed[i]
+                c = Case("d%d" % i, family, spec)
+            else:
+                spec = F.fam_struct(r, i)
+                c = Case("s%d" % i, family, spec)
             rts, f64, boo = has_rts(spec), has_f64_host(spec), has_bool_host(spec)
             cf = []
             for mv in ("rust", "glam", "nalgebra"):
@@ -139,7 +144,7 @@ def gen_cases(family, tier):
                     cf.append({"opt": {"mv": mv}, "plain": True})
                 cf.append({"opt": {"bh": False, "en": (not f64) or rts, "mv": mv,
                                    "se": r.random() < 0.3, "bv": r.random() < 0.5}})
-            if i < nm:
+            if len(directed) <= i < len(directed) + nm:
                 # full derive matrix for C09 (16 switch sets x 3 representations)
                 for mv in ("rust", "glam", "nalgebra"):
                     for bits in range(16):
